@@ -125,6 +125,12 @@ func Run(f func()) {
 
 // End restores the process state and returns the outcome.
 func End() Outcome {
+	for name, val := range savedFlags {
+		if f := flag.Lookup(name); f != nil {
+			f.Value.Set(val)
+		}
+		delete(savedFlags, name)
+	}
 	if oldOut != nil {
 		os.Stdout = oldOut
 	}
@@ -291,11 +297,21 @@ func Stdout() string {
 	return string(b)
 }
 
+// Flag sets a command-line flag of the test binary for the duration of the
+// harness (go-snaps reads test.run / test.count through package flag). The old
+// value is restored by End: package testing re-reads -test.run and -test.count
+// on every iteration of its run loop, so leaving them changed would make the
+// binary run the package's whole own test suite afterwards.
 func Flag(name, val string) {
 	if f := flag.Lookup(name); f != nil {
+		if _, saved := savedFlags[name]; !saved {
+			savedFlags[name] = f.Value.String()
+		}
 		f.Value.Set(val)
 	}
 }
+
+var savedFlags = map[string]string{}
 
 // TestSources writes a parseable Go file with the given top-level functions.
 func TestSources(path string, funcs ...string) {
